@@ -35,6 +35,15 @@ func sqlResError(res sql.Result) error {
 	return nil
 }
 
+// sqlBytes returns bs, or an empty non-nil slice when bs is nil, so that a nil
+// slice is stored as an empty value rather than as NULL.
+func sqlBytes(bs []byte) []byte {
+	if bs == nil {
+		return []byte{}
+	}
+	return bs
+}
+
 func sqlIterRows(rows *sql.Rows, f WalkFunc) error {
 	for rows.Next() {
 		var k, cls string
